@@ -2,7 +2,7 @@
 canonical digest.
 
 A *job* is plain JSON: {"model": name, "params": {...}, "seed": int, "wall": null|"offset"|"fast"|"frozen",
-"numpy_seed": true|false}.
+"numpy_seed": true|false, "seed_mode": "derived"|"same"}.
 `execute(job)` does what a user would do in one interpreter:
 
     random.seed(seed); numpy.random.seed(seed)      # the user's seeds
@@ -177,8 +177,10 @@ def _peek_event_counter() -> int:
 # ---------------------------------------------------------------------------
 
 def execute(job: dict, full: bool = False) -> dict:
+    import simkit.c03_zoo as zoo
     from simkit.c03_zoo import ZOO
 
+    zoo.SEED_MODE = job.get("seed_mode", "derived")
     entry = ZOO[job["model"]]
     seed = int(job["seed"])
     log: list = []
